@@ -20,6 +20,11 @@ CLAIMS = {
   text="Structural necessary conditions of the ordered-map behaviour, for all operation histories: bucket map, key-order list and key count are written only by HashSet/HashDelete/SetHashKeyOrder/CloneFrom/MakeHash; in HashSet a pair is created, the key appended and the count incremented together and only under a bucket-missing or no-match-found guard, never on the replace path, and the replace path stores into the bucket; in HashDelete bucket, count and order list change only on the key-matched path and all three do change there; set, get and delete accept a pair exactly when Compare returned nil error and 0; get returns a stored value only for the matching pair. Does not decide agreement with an ordered-map model over histories, nor the aliasing introduced by CloneFrom.",
   note="Trusts go/ssa; recognises the current loop/flag idioms and fails closed otherwise.",
   ref="DESIGN.md §3 C14"),
+ "C13": dict(
+  technique="residue-field reset analysis (who-writes / who-reads over go/ssa), guard and loop-back checks on the more-input idiom, lexer-state table extraction",
+  text="Structural necessary conditions of history- and chunking-independence: every Lexer/Parser field that a lexing/parsing routine writes and any routine reads is re-initialised by Lexer.Reset / Parser.Reset / Parser.ResetAddNewInput (siblings agree, parser resets reset the lexer, new input is queued after the reset); lexer residue is written only by Lexer methods and queuing input touches only the stream queue; each of the six descent routines, on TokenEnd, stores ErrMoreInputNeeded, yields and peeks again; every in-literal lexer state is announced by a begin token or tested on the end-of-text path; the top-level end-of-text path flushes the pending atom and parses it; GetNextToken removes exactly one token and PeekNextToken none. Does not decide equality of pieced and whole parses on actual texts.",
+  note="Trusts go/ssa. Exemptions (tables/C13.tsv): the three synthetic `hash` token prepends in ParseExpression; the recursion counter balanced by deferred decrements.",
+  ref="DESIGN.md §3 C13, Appendix B"),
 }
 NA_DEFAULT="rules not built yet (build in progress; see DESIGN.md §7)"
 NA = {}
